@@ -248,6 +248,7 @@ class Ctx:
 
         `theorems` are names defined in the target module. Records obligations/discharged.
         Returns True iff every obligation was discharged."""
+        self._prove_target = target_v
         ok, log = self.coq_make([target_v], timeout)
         cone = self.cone(target_v)
         n_obl = 0
@@ -397,6 +398,24 @@ class Ctx:
 
     # ------------------------------------------------------------------ model evaluation
     def coq_eval_bools(self, imports, terms, tag="cases", shard_size=250, timeout=900):
+        """Evaluate each term; if another check rebuilt a shared .vo meanwhile (coqc then reports
+        inconsistent assumptions), rebuild this property's cone and evaluate again."""
+        for attempt in range(3):
+            n_before = len(self.tie_breaks)
+            r = self._coq_eval_bools_once(imports, terms, tag, shard_size, timeout)
+            if r is not None:
+                return r
+            last = self.tie_breaks[-1][2] if len(self.tie_breaks) > n_before else ""
+            if attempt < 2 and isinstance(last, str) and ("inconsistent assumptions" in last or "bad version number" in last or "Cannot find a physical path" in last):
+                del self.tie_breaks[n_before:]
+                self.log("model evaluation raced with another build; rebuilding the cone and retrying")
+                if getattr(self, "_prove_target", None):
+                    self.coq_make([self._prove_target])
+                continue
+            return None
+        return None
+
+    def _coq_eval_bools_once(self, imports, terms, tag="cases", shard_size=250, timeout=900):
         """Evaluate each Gallina term (of type bool) with vm_compute inside coqc.
         Returns the list of indices whose value is not `true`, or None if evaluation failed."""
         if not terms:
